@@ -115,9 +115,11 @@ func c08Scenarios(tier string) []*Scenario {
 		deriver          bool // a goroutine derives scopes from an open subscope while Close runs (2 registry shards)
 		shards           uint // registry shards (0: one); the root is visited once per shard by a pass
 		otherRoot        bool // an unrelated root scope of the same process runs a report pass meanwhile
+		reacquire        bool // a closed subscope that still holds a value is requested again while Close runs (its report is part of the barrier)
 	}
 	vs := []variant{{cached: true, closable: true, interval: 1e9}, {interval: 1e9}, {cached: true, closable: true, interval: 1e9, twoClosers: true},
-		{interval: 0, deriver: true}, {cached: true, interval: 1e9, shards: 3}, {interval: 0, otherRoot: true}}
+		{interval: 0, deriver: true}, {cached: true, interval: 1e9, shards: 3}, {interval: 0, otherRoot: true},
+		{cached: true, closable: true, interval: 1e9, reacquire: true}, {interval: 0, reacquire: true}}
 	if tier == "thorough" {
 		vs = append(vs, variant{cached: true, interval: 1e9}, variant{closable: true, interval: 1e9}, variant{cached: true, closable: true}, variant{},
 			variant{twoClosers: true}, variant{closable: true, interval: 1e9, twoClosers: true}, variant{cached: true, interval: 1e9, deriver: true},
@@ -137,6 +139,9 @@ func c08Scenarios(tier string) []*Scenario {
 		}
 		if v.otherRoot {
 			name += "-other-root-reporting"
+		}
+		if v.reacquire {
+			name += "-closed-subscope-requested-again"
 		}
 		out = append(out, &Scenario{
 			Property: "C08", Name: name, Ticks: tierInt(tier, 1, 2),
@@ -180,6 +185,16 @@ func c08Scenarios(tier string) []*Scenario {
 					root2.Counter("oc").Inc(7)
 					oth = rt.GoNamed("other-root-pass", func() { tally.VerifReportOnce(root2) })
 				}
+				var rth *rt.Thread
+				if v.reacquire {
+					s3 := root.Tagged(map[string]string{"r": "1"})
+					s3.Counter("c").Inc(16)
+					closeScope(s3)
+					rth = rt.GoNamed("reacquirer", func() {
+						again := root.Tagged(map[string]string{"r": "1"})
+						again.Counter("late").Inc(0) // (zero: nothing to deliver, whether or not the scope is inert)
+					})
+				}
 				var derived []tally.Scope
 				var dth *rt.Thread
 				if v.deriver {
@@ -201,6 +216,9 @@ func c08Scenarios(tier string) []*Scenario {
 						z := e.SubScope("z")
 						z.Timer("t").Record(1)
 					}
+				}
+				if rth != nil {
+					rth.Join()
 				}
 				if other != nil {
 					other.Join()
@@ -226,6 +244,9 @@ func c08Scenarios(tier string) []*Scenario {
 			},
 			Check: func(x *Run, o *rt.Outcome) (string, string, string) {
 				want := map[string]int64{"c{}": 1, `c{"a":"1"}`: 2, "x.c{}": 4}
+				if v.reacquire {
+					want[`c{"r":"1"}`] = 16
+				}
 				loser := false
 				if v.twoClosers {
 					// whichever Close call performs the shutdown, both must be barriers
